@@ -404,17 +404,18 @@ Proof. apply sumN_map_In_le. Qed.
 (* ------------------------------------------------------------------------------------ *)
 (** * 5. Readable views of the nested fixpoints of the model *)
 
-Fixpoint bl_fields (d : N) (n : node) (fs : list ty) (i acc : N) : res N :=
-  match fs with
-  | [] => OK acc
-  | f :: fs' =>
-    if ti_fixed (info f) then bl_fields d n fs' (i + 1) (add64 acc (ti_size (info f)))
-    else
-      do g <- to_gindex64 i d;
-      do c <- getter n g;
-      do l <- byte_len f c;
-      bl_fields d n fs' (i + 1) (add64 acc (add64 l 4))
-  end.
+Definition bl_fields (d : N) (n : node) : list ty -> N -> N -> res N :=
+  fix go (fs : list ty) (i acc : N) : res N :=
+    match fs with
+    | [] => OK acc
+    | f :: fs' =>
+      if ti_fixed (info f) then go fs' (i + 1) (add64 acc (ti_size (info f)))
+      else
+        do g <- to_gindex64 i d;
+        do c <- getter n g;
+        do l <- byte_len f c;
+        go fs' (i + 1) (add64 acc (add64 l 4))
+    end.
 
 Lemma byte_len_cont fs n :
   byte_len (TContainer fs) n =
@@ -541,3 +542,198 @@ Proof. reflexivity. Qed.
 Lemma spec_ser_list e k vs :
   spec_ser (TList e k) (VSeq vs) = ser_parts (map (fun x => (spec_is_fixed e, spec_ser e x)) vs).
 Proof. reflexivity. Qed.
+
+(* ------------------------------------------------------------------------------------ *)
+(** * 6. Shared facts about representing trees *)
+
+Lemma Forall2_map_l {A B C} (R : B -> C -> Prop) (f : A -> B) : forall l l',
+  Forall2 R (map f l) l' -> Forall2 (fun x y => R (f x) y) l l'.
+Proof.
+  induction l as [|x l IH]; intros l' HF; inversion HF; subst; constructor; auto.
+Qed.
+
+Lemma sumN_map_add4 {A} (h : A -> N) : forall vs,
+  sumN (map (fun x => 4 + h x) vs) = 4 * lenN vs + sumN (map h vs).
+Proof.
+  induction vs as [|x vs IH]; [reflexivity|]. cbn [map]. rewrite !sumN_cons, IH, lenN_cons. lia.
+Qed.
+
+Lemma series_lenN_var (g : val -> list byte) vs :
+  lenN (ser_parts (map (fun x => (false, g x)) vs)) =
+  4 * lenN vs + sumN (map (fun x => lenN (g x)) vs).
+Proof. rewrite ser_series_lenN. apply sumN_map_add4. Qed.
+
+Lemma series_lenN_fixed (g : val -> list byte) vs :
+  lenN (ser_parts (map (fun x => (true, g x)) vs)) = sumN (map (fun x => lenN (g x)) vs).
+Proof. now rewrite ser_series_lenN. Qed.
+
+Lemma pow56_lt : 2 ^ 56 < two64.
+Proof. rewrite <- pow64. apply N.pow_lt_mono_r; lia. Qed.
+
+Lemma mul64_small a b : a * b < two64 -> mul64 a b = a * b.
+Proof. intros H. unfold mul64. now apply wrap64_small. Qed.
+
+Lemma sel_leaf sel : sel < 256 ->
+  forallb (fun b => N_of_byte b =? 0) (tl (pad32 [byte_of_N sel])) = true /\
+  N_of_byte (hd b0 (pad32 [byte_of_N sel])) = sel.
+Proof.
+  intros Hs. change (pad32 [byte_of_N sel]) with (byte_of_N sel :: repeat b0 31).
+  cbn [tl hd]. split; [reflexivity|]. rewrite N_of_byte_of_N. now apply N.mod_small.
+Qed.
+
+Lemma union_sel_range none opts sel ov :
+  wf_ty (TUnion none opts) = true -> has_type (VUnion sel ov) (TUnion none opts) = true ->
+  sel < union_count none opts /\ union_count none opts <= 128.
+Proof.
+  intros Hwf Ht. cbn [wf_ty] in Hwf. rewrite !andb_true_iff in Hwf.
+  destruct Hwf as [[_ Hc] _]. apply N.leb_le in Hc. split; [|exact Hc].
+  rewrite ReprProofs.has_type_union in Ht. unfold union_count.
+  destruct (none && (sel =? 0)) eqn:Hn.
+  - apply andb_true_iff in Hn. destruct Hn as [-> Hs]. apply N.eqb_eq in Hs. lia.
+  - rewrite rpick_nth_error in Ht.
+    destruct (nth_error opts (nat_of (if none then sel - 1 else sel))) eqn:Hk; [|discriminate].
+    assert (Hlt : (nat_of (if none then sel - 1 else sel) < length opts)%nat)
+      by (apply nth_error_Some; congruence).
+    unfold nat_of in Hlt. destruct none; cbn [andb] in Hn; [apply N.eqb_neq in Hn|]; lia.
+Qed.
+
+Section Union.
+Variable zh : nat -> chunk.
+
+Lemma union_cases none opts sel ov c :
+  has_type (VUnion sel ov) (TUnion none opts) = true ->
+  match ov with
+  | None => c = Leaf zero_chunk
+  | Some x => rpick False (fun o => repr zh o c x) opts (nat_of (if none then sel - 1 else sel))
+  end ->
+  (none && (sel =? 0) = true /\ ov = None /\ c = Leaf zero_chunk) \/
+  (none && (sel =? 0) = false /\
+   exists o x, ov = Some x /\ nth_error opts (nat_of (if none then sel - 1 else sel)) = Some o /\
+               has_type x o = true /\ repr zh o c x).
+Proof.
+  intros Ht Hr. rewrite ReprProofs.has_type_union in Ht.
+  destruct (none && (sel =? 0)) eqn:Hn.
+  - left. destruct ov; [discriminate|]. auto.
+  - right. split; [reflexivity|]. rewrite rpick_nth_error in Ht.
+    destruct (nth_error opts (nat_of (if none then sel - 1 else sel))) as [o|] eqn:Hk; [|discriminate].
+    destruct ov as [x|]; [|discriminate]. rewrite rpick_nth_error, Hk in Hr.
+    exists o, x. auto.
+Qed.
+End Union.
+
+Lemma wrap8_small n : n < 256 -> wrap8 n = n.
+Proof. intros H. unfold wrap8. now apply N.mod_small. Qed.
+
+Lemma cover_depth_63 v : v <= 2 ^ 63 -> cover_depth v < 64.
+Proof. intros H. pose proof (cover_depth_small v 63 H ltac:(lia)). lia. Qed.
+
+Lemma view_depth_lt64 t : small_params t = true -> small_fields t = true -> view_depth t < 64.
+Proof.
+  intros Hs Hf. pose proof (small_contents_depth t Hs) as H.
+  unfold view_depth. destruct t; cbn [is_list_ty]; try lia.
+  cbn [contents_depth]. cbn [small_fields] in Hf. apply andb_true_iff in Hf.
+  destruct Hf as [Hf _]. apply N.leb_le in Hf. unfold lenN in Hf.
+  pose proof (cover_depth_63 _ Hf). lia.
+Qed.
+
+(* ------------------------------------------------------------------------------------ *)
+(** * 7. ValueByteLength *)
+
+Ltac dval v Hty := destruct v; try (cbn [has_type] in Hty; discriminate Hty).
+
+Section ByteLen.
+Variable zh : nat -> chunk.
+
+Definition bl_stmt (t : ty) : Prop :=
+  wf_ty t = true -> small_params t = true -> small_fields t = true ->
+  forall v n, has_type v t = true -> repr zh t n v -> lenN (spec_ser t v) < 2 ^ 64 ->
+  byte_len t n = OK (lenN (spec_ser t v)).
+
+Lemma bl_uint w : bl_stmt (TUint w).
+Proof.
+  intros _ _ _ v n Ht _ _. dval v Ht. cbn [byte_len spec_ser]. now rewrite lenN_le_bytes.
+Qed.
+
+Lemma bl_bool : bl_stmt TBool.
+Proof. intros _ _ _ v n Ht _ _. dval v Ht. reflexivity. Qed.
+
+Lemma bl_bytes k : bl_stmt (TBytes k).
+Proof.
+  intros _ _ _ v n Ht _ _. dval v Ht. cbn [has_type] in Ht. apply N.eqb_eq in Ht.
+  cbn [byte_len spec_ser]. unfold lenN. now rewrite Ht.
+Qed.
+
+Lemma bl_root : bl_stmt TRoot.
+Proof.
+  intros _ _ _ v n Ht _ _. dval v Ht. cbn [has_type] in Ht. apply N.eqb_eq in Ht.
+  cbn [byte_len spec_ser]. unfold lenN. now rewrite Ht.
+Qed.
+
+Lemma bl_bitvector k : bl_stmt (TBitvector k).
+Proof.
+  intros _ Hs _ v n Ht _ Hl. cbn [byte_len]. f_equal. now apply fixed_size.
+Qed.
+
+Lemma bl_bitlist k : bl_stmt (TBitlist k).
+Proof.
+  intros _ Hs _ v n Ht Hr _. dval v Ht. cbn [has_type] in Ht. apply N.leb_le in Ht.
+  cbn [small_params] in Hs. apply N.leb_le in Hs. fold (lenN bs) in Ht.
+  cbn [repr] in Hr. destruct Hr as (c & -> & _).
+  pose proof small_plus8 as H56.
+  cbn [byte_len]. rewrite (list_length_len_leaf k c (lenN bs) Ht) by (rewrite pow64; lia).
+  cbn [bind spec_ser]. rewrite ser_bitlist_lenN, wrap64_small by lia. f_equal. lia.
+Qed.
+
+Lemma vec_depth e k : view_depth (TVector e k) = contents_depth (TVector e k).
+Proof. unfold view_depth. cbn [is_list_ty]. lia. Qed.
+
+Lemma not_fixed_not_basic e : spec_is_fixed e = false -> is_basic_elem e = false.
+Proof. destruct e; cbn; congruence. Qed.
+
+(* the elements of a complex series: the iterator returns representing nodes *)
+Lemma series_elems_iter e d vs n :
+  series zh d (map (fun x m => repr zh e m x) vs) n -> N.of_nat d < 64 ->
+  exists ms, node_iter_all n (lenN vs) (N.of_nat d) = OK ms /\
+             Forall2 (fun x m => repr zh e m x) vs ms.
+Proof.
+  intros Hs Hd. destruct (series_iter zh d _ n Hs Hd) as (ms & Hms & HF).
+  unfold lenN in Hms. rewrite map_length in Hms. exists ms. split; [exact Hms|].
+  now apply Forall2_map_l in HF.
+Qed.
+
+Lemma elems_byte_len e vs ms :
+  bl_stmt e -> wf_ty e = true -> small_params e = true -> small_fields e = true ->
+  forallb (fun x => has_type x e) vs = true ->
+  Forall2 (fun x m => repr zh e m x) vs ms ->
+  sumN (map (fun x => lenN (spec_ser e x)) vs) < 2 ^ 64 ->
+  mapM (byte_len e) ms = OK (map (fun x => lenN (spec_ser e x)) vs).
+Proof.
+  intros IH Hwf Hs Hf Hty HF Hsum. rewrite forallb_forall in Hty.
+  apply (mapM_F2 _ _ _ _ _ HF). intros x m Hin Hr.
+  apply IH; auto.
+  pose proof (sumN_map_In_le (fun x => lenN (spec_ser e x)) vs x Hin). cbv beta in *. lia.
+Qed.
+
+Lemma bl_vector e k : bl_stmt e -> bl_stmt (TVector e k).
+Proof.
+  intros IH Hwf Hs Hf v n Ht Hr Hl. rewrite byte_len_vector, info_fixed_flag.
+  destruct (spec_is_fixed (TVector e k)) eqn:Hfx.
+  - f_equal. now apply fixed_size.
+  - cbn [spec_is_fixed] in Hfx. dval v Ht.
+    cbn [has_type] in Ht. apply andb_true_iff in Ht. destruct Ht as [Hlen Hty].
+    apply N.eqb_eq in Hlen. fold (lenN vs) in Hlen.
+    cbn [wf_ty] in Hwf. apply andb_true_iff in Hwf. destruct Hwf as [_ Hwfe].
+    pose proof (small_contents_depth _ Hs) as Hd. cbv beta iota in Hd.
+    cbn [small_params] in Hs. apply andb_true_iff in Hs. destruct Hs as [Hk Hse]. apply N.leb_le in Hk.
+    cbn [small_fields] in Hf.
+    rewrite repr_vector, (not_fixed_not_basic e Hfx) in Hr.
+    rewrite spec_ser_vector, Hfx in *. rewrite series_lenN_var in *.
+    destruct (series_elems_iter e _ vs n Hr) as (ms & Hms & HF).
+    { rewrite cdepth_N. lia. }
+    rewrite cdepth_N, Hlen in Hms. rewrite vec_depth, Hms. cbn [bind].
+    rewrite (elems_byte_len e vs ms IH Hwfe Hse Hf Hty HF) by lia. cbn [bind].
+    pose proof pow56_lt as H56. rewrite pow64 in Hl.
+    rewrite mul64_small by lia. rewrite sum_lens_spec by lia.
+    rewrite wrap64_small by lia. f_equal. lia.
+Qed.
+End ByteLen.
